@@ -332,6 +332,8 @@ impl<'de, R: Reader<'de>> Deserializer<R> {
         V: de::Visitor<'de>,
     {
         let (raw, status) = self.parser.skip_one()?;
+        // the skipped text is handed out as `str`
+        self.parser.check_invalid_utf8(false)?;
         if status == ParseStatus::HasEscaped {
             visitor.visit_str(as_str(raw))
         } else {
@@ -343,7 +345,10 @@ impl<'de, R: Reader<'de>> Deserializer<R> {
     where
         V: de::Visitor<'de>,
     {
-        let val = ManuallyDrop::new(self.parser.get_owned_lazyvalue(true)?);
+        let val = self.parser.get_owned_lazyvalue(true)?;
+        // the skipped text is handed out as `str`
+        self.parser.check_invalid_utf8(false)?;
+        let val = ManuallyDrop::new(val);
         // #Safety
         // the json is validate before parsing json, and we pass the document using visit_bytes
         // here.
@@ -375,6 +380,10 @@ impl<'de, R: Reader<'de>> Deserializer<R> {
                 val.parse_with_padding(json, cfg)?
             };
             self.parser.read.eat(n);
+            // the in-place parser does not look at the utf-8 verdict of the reader
+            if !cfg.utf8_lossy {
+                self.parser.check_invalid_utf8(false)?;
+            }
         } else {
             let shared = unsafe {
                 if self.shared.is_none() {
@@ -921,6 +930,7 @@ impl<'de, 'a, R: Reader<'de>> de::Deserializer<'de> for &'a mut Deserializer<R> 
     {
         // NOTE: we use faster skip, and will not validate the skipped parts.
         tri!(self.parser.skip_one());
+        tri!(self.parser.check_invalid_utf8(false));
         match visitor.visit_unit() {
             Ok(value) => Ok(value),
             Err(err) => Err(self.parser.fix_position(err)),
